@@ -726,7 +726,10 @@ macro_rules! ex_helper {
     ($fname:ident, $m:ident, $name:expr, $slen:expr, $has_split:tt) => {
         fn $fname(n: &mut Net, out: &mut RunOut) {
             use crrl::$m::{Point, Scalar};
-            let e = n.t.usize(8 * $slen);
+            // exponent: half of the time one of the word / half-size boundaries where splitting code changes regime
+            const EDGES: [usize; 40] = [0, 1, 2, 31, 32, 33, 63, 64, 65, 95, 96, 97, 111, 112, 113, 120, 124, 126, 127, 128,
+                129, 130, 142, 143, 159, 160, 161, 191, 192, 193, 200, 222, 223, 224, 225, 251, 252, 253, 254, 255];
+            let e = if n.t.chance(1, 2) { EDGES[n.t.usize(EDGES.len())] % (8 * $slen) } else { n.t.usize(8 * $slen) };
             let mut b = vec![0u8; $slen + 8];
             b[e / 8] = 1u8 << (e % 8);
             if n.t.chance(1, 3) {
